@@ -184,6 +184,9 @@ func unmarshalFieldWKT(msg protoreflect.Message, field protoreflect.FieldDescrip
 	switch field.Message().Name() {
 	case "DoubleValue", "FloatValue":
 		value := msg.NewField(field)
+		if field.IsList() {
+			value = value.List().NewElement()
+		}
 		subField := value.Message().Descriptor().Fields().ByName("value")
 		subValue, err := unmarshalFieldValue(value.Message(), subField, data)
 		if err != nil {
@@ -199,6 +202,9 @@ func unmarshalFieldWKT(msg protoreflect.Message, field protoreflect.FieldDescrip
 
 func unmarshalFieldMessage(msg protoreflect.Message, field protoreflect.FieldDescriptor, data []byte) (protoreflect.Value, error) {
 	value := msg.NewField(field)
+	if field.IsList() {
+		value = value.List().NewElement()
+	}
 	if err := protojson.Unmarshal(data, value.Message().Interface()); err != nil {
 		return protoreflect.Value{}, err
 	}
